@@ -1923,7 +1923,7 @@ REQUIRED_PROBES = ["iv.do.non_source", "iv.shift.non_source", "iv.noise.non_sour
                    "utils.unseeded_call",
                    "nd.check_valid"]
 
-REQUIRED_PROBES = REQUIRED_PROBES + ["sweep.call_repeated_after_the_failures", "call.after_its_hash_twin(-1 / -2)", "thread.calls_outside_main_thread", "fault.died_in_a_numpy_call(np.*)", "sweep.np_star", "sample.giant(>=2**20 values)", "display.plotting_call", "display.request_failed", "arg.is_an_attribute_of_a_live_model", "pdag.without_consistent_extension(nodes removed first)"]
+REQUIRED_PROBES = REQUIRED_PROBES + ["call.tried_again_after_an_attempt_that_died", "sweep.call_repeated_after_the_failures", "call.after_its_hash_twin(-1 / -2)", "thread.calls_outside_main_thread", "fault.died_in_a_numpy_call(np.*)", "sweep.np_star", "sample.giant(>=2**20 values)", "display.plotting_call", "display.request_failed", "arg.is_an_attribute_of_a_live_model", "pdag.without_consistent_extension(nodes removed first)"]
 
 
 def simplify(op):
